@@ -54,6 +54,10 @@ func buildDest(path string, p CopyPair, srcPath string, now int64) (bool, error)
 		return false, nil
 	case "fresh":
 		return true, buildFile(path, FileSpec{L: p.Src.L}, now)
+	case "subtle-mismatch":
+		// same archive count and steps, a longer last archive: invisible in a narrow window or when
+		// another archive is selected, but still a layout mismatch
+		return true, buildFile(path, FileSpec{L: subtleLayoutVariant(p.Src.L), Writes: p.DestWrites}, now)
 	case "same":
 		return true, buildFile(path, p.Src, now)
 	case "perturbed":
@@ -172,6 +176,21 @@ func runC08(c C08Case, ev *Evid) (fs []Finding) {
 			return
 		}
 	}
+	for i, st := range sts {
+		if c.Pairs[i].DestMode != "subtle-mismatch" {
+			continue
+		}
+		if err == nil {
+			add("mismatch-not-reported", "%s: the destination's layout %s differs from the source's, copy reported success", desc, subtleLayoutVariant(srcL))
+			return
+		}
+		if b, _ := os.ReadFile(st.destPath); !bytes.Equal(b, st.destB) {
+			add("mismatch-wrote-points", "%s: layout mismatch reported (%v) but the destination was modified (first difference at byte %d)", desc, err, firstDiff(b, st.destB))
+			return
+		}
+		ev.Count(HashJSON(c), true, "layout-mismatch", "subtle-mismatch")
+		return nil
+	}
 	mismatch := !layoutsEqualArchives(req, srcL)
 	if mismatch {
 		// an existing destination has the source's layout here; only absent ones are created with the mismatching request
@@ -244,6 +263,9 @@ func runC08(c C08Case, ev *Evid) (fs []Finding) {
 				add("dest-created-layout", "%s: created destination header %x, requested layout encodes as %x", desc, b[:len(want)], want)
 				return
 			}
+		} else if hl := 16 + 12*len(srcL.Archives); len(b) != len(st.destB) || !bytes.Equal(b[:hl], st.destB[:hl]) {
+			add("dest-header-changed", "%s: the existing destination's header or length changed (a file's header and length are fixed at creation): %x -> %x", desc, st.destB[:hl], b[:minInt(hl, len(b))])
+			return
 		}
 		_ = f
 		after, _ := readArchives(st.destPath, srcL, c.From, until, now)
@@ -318,6 +340,29 @@ func runC08(c C08Case, ev *Evid) (fs []Finding) {
 			return
 		}
 	}
+	// a copy-nan copy over the same window after the plain one: now NaN where the source has none
+	if !c.CopyNaN {
+		cc := mk()
+		cc.CopyNaN = true
+		if err3, pm3 := runCommand(now, cc); err3 != nil || pm3 != "" {
+			add("followup-copy-nan-fails", "%s: a copy -copy-nan after the plain copy failed: %v %s", desc, err3, pm3)
+			return
+		}
+		for i, st := range sts {
+			after, _ := readArchives(st.destPath, srcL, c.From, until, now)
+			for a := range srcL.Archives {
+				if (c.ArchiveID != cmd.ArchiveIDAll && c.ArchiveID != a) || st.S[a].Nil || st.S[a].Err != nil || after[a].Nil {
+					continue
+				}
+				for k, sv := range st.S[a].S.Values {
+					if k < len(after[a].S.Values) && sv != sv && after[a].S.Values[k] == after[a].S.Values[k] {
+						add("nan-not-copied", "%s: pair %s archive %d slot t=%d: after a plain copy followed by copy -copy-nan the destination still holds %s where the source has no value", desc, c.Pairs[i].Rel, a, st.S[a].S.From+int64(k)*st.S[a].S.Step, fstr(after[a].S.Values[k]))
+						return
+					}
+				}
+			}
+		}
+	}
 	// diff over the same window / selection is clean in the copied slots (all slots with copy-nan)
 	dc := &cmd.DiffCommand{SrcBase: srcBase, DestBase: destBase, From: wt.Timestamp(c.From), Until: wt.Timestamp(c.Until), ArchiveID: c.ArchiveID, TextOut: filepath.Join(dir, "diff.txt")}
 	if c.Pattern != "" {
@@ -335,18 +380,9 @@ func runC08(c C08Case, ev *Evid) (fs []Finding) {
 		add("diff-error", "%s: diff after copy failed: %v", desc, derr)
 		return
 	}
-	if c.CopyNaN && derr != nil {
-		add("diff-not-clean", "%s: diff after a copy with copy-nan reports a difference:\n%s", desc, tail(readText(filepath.Join(dir, "diff.txt")), 600))
-		return
-	}
 	if derr != nil {
-		// without copy-nan only slots where the source has no value may remain different
-		for _, r := range parseLTSV(readText(filepath.Join(dir, "diff.txt"))) {
-			if sv, ok := r["srcVal"]; ok && sv != "NaN" {
-				add("diff-not-clean", "%s: diff after copy lists a slot where the source has a value: %s", desc, r["_line"])
-				return
-			}
-		}
+		add("diff-not-clean", "%s: diff after the copy (incl. a copy -copy-nan pass) reports a difference:\n%s", desc, tail(readText(filepath.Join(dir, "diff.txt")), 600))
+		return
 	}
 	fresh := false
 	for i := range sts {
@@ -415,6 +451,13 @@ func genCopyPair(t *rapid.T, l Layout, now int64, rel string, allowCopyNaNVals b
 	return p
 }
 
+// subtleLayoutVariant: same archive count and steps, the last archive 7 points longer.
+func subtleLayoutVariant(l Layout) Layout {
+	v := Layout{Method: l.Method, XFF: l.XFF, Archives: append([]Arch(nil), l.Archives...)}
+	v.Archives[len(v.Archives)-1].Points += 7
+	return v
+}
+
 func minI64(a, b int64) int64 {
 	if a < b {
 		return a
@@ -453,6 +496,10 @@ func genC08(t *rapid.T) C08Case {
 		c.Pairs = kept
 	} else {
 		c.Pairs = []CopyPair{genCopyPair(t, l, now, rapid.SampledFrom(relNames).Draw(t, "rel"), true)}
+		if rapid.IntRange(0, 11).Draw(t, "subtleMismatch") == 0 {
+			c.Pairs[0].DestMode = "subtle-mismatch"
+			c.Pairs[0].DestWrites = genWrites(t, subtleLayoutVariant(l), now, valGeneral, 0)
+		}
 		if rapid.IntRange(0, 3).Draw(t, "rename") == 0 {
 			c.DestRel = "renamed/" + c.Pairs[0].Rel
 		}
@@ -462,7 +509,12 @@ func genC08(t *rapid.T) C08Case {
 		c.ArchiveID = rapid.IntRange(0, len(l.Archives)-1).Draw(t, "archive")
 	}
 	c.CopyNaN = rapid.Bool().Draw(t, "copyNaN")
-	if rapid.IntRange(0, 11).Draw(t, "mismatch") == 0 {
+	if c.Pairs[0].DestMode == "subtle-mismatch" {
+		if rapid.Bool().Draw(t, "reqIsDest") {
+			l2 := subtleLayoutVariant(l)
+			c.ReqLayout = &l2
+		}
+	} else if rapid.IntRange(0, 11).Draw(t, "mismatch") == 0 {
 		l2 := genCLILayout(t)
 		c.ReqLayout = &l2
 	} else if rapid.Bool().Draw(t, "otherMeta") {
@@ -476,8 +528,9 @@ func genC08(t *rapid.T) C08Case {
 
 func TestC08(t *testing.T) {
 	RunProperty(t, Property[C08Case]{
-		ID: "C08",
-		Rule: "rapid-generated copy invocations at a controlled wall clock (synctest bubble): layout x method x xff; source contents sparse/dense with NaN holes and coarser archives written by name (not the aggregate of finer ones); destination absent / fresh / identical / perturbed / unrelated / equal in every coarser archive but different in finer slots; windows default, narrow, past, beyond the finest retention, degenerate, explicit; all archives or one; copy-nan on/off; single file (optionally renamed) or glob over 2-4 files in nested directories; requested layout equal, differing only in method/xff, or mismatching. Oracle (library fetches at the same clock): every selected slot of the window holds the source's value where it has one, NaN where it has none under copy-nan; source bytes unchanged; created destinations carry the requested header; a repeated copy leaves the bytes unchanged; diff afterwards lists no slot where the source has a value (and nothing at all under copy-nan); mismatch => error and no points written. Non-trivial: >=1 slot actually copied AND (a coarser slot equal before the copy above differing finer slots, or a NaN hole in the window, or a fresh/absent destination, or a window edge inside an archive). Distinct = hash of the case.",
+		NoteCases:   true,
+		ID:          "C08",
+		Rule:        "rapid-generated copy invocations at a controlled wall clock (synctest bubble): layout x method x xff; source contents sparse/dense with NaN holes and coarser archives written by name (not the aggregate of finer ones); destination absent / fresh / identical / perturbed / unrelated / equal in every coarser archive but different in finer slots; windows default, narrow, past, beyond the finest retention, degenerate, explicit; all archives or one; copy-nan on/off; single file (optionally renamed) or glob over 2-4 files in nested directories; requested layout equal, differing only in method/xff, or mismatching. Oracle (library fetches at the same clock): every selected slot of the window holds the source's value where it has one, NaN where it has none under copy-nan; source bytes unchanged; created destinations carry the requested header; a repeated copy leaves the bytes unchanged; diff afterwards lists no slot where the source has a value (and nothing at all under copy-nan); mismatch => error and no points written. Non-trivial: >=1 slot actually copied AND (a coarser slot equal before the copy above differing finer slots, or a NaN hole in the window, or a fresh/absent destination, or a window edge inside an archive). Distinct = hash of the case.",
 		Assumptions: []string{"+0 vs -0 is not distinguished (Z4)", "slots where the source has no value are unconstrained without copy-nan", "realistic clocks 2017-2030"},
 		Gen:         genC08,
 		Run:         runC08,
